@@ -81,8 +81,15 @@ PLAN = {
                   S("hookdbg-explore", tag="dbg-c12", check="C12", only="scripts-small"),
                   S("asan-default", tag="asan-c02", check="C02", only="body-fill", env={"ASAN_OPTIONS": "detect_leaks=0"}),
                   S("asan-default", tag="asan-c07", check="C07", only="agg-backends", env={"ASAN_OPTIONS": "detect_leaks=0"}),
-                  S("asan-default", tag="asan-c14", check="C14", env={"ASAN_OPTIONS": "detect_leaks=0"})],
-        "thorough": [S("hook-default"), S("hook-unsafe", tag="hook-unsafe"),
+                  S("asan-default", tag="asan-c14", check="C14", env={"ASAN_OPTIONS": "detect_leaks=0"}),
+                  # unoptimised (opt-level 0, debug assertions, overflow checks) ASan build: loads the optimiser would drop stay visible
+                  S("asan0-default", tag="asan0-c02", check="C02", only="body-fill", env={"ASAN_OPTIONS": "detect_leaks=0"}),
+                  S("asan0-default", tag="asan0-c07", check="C07", only="agg-backends-lanes", env={"ASAN_OPTIONS": "detect_leaks=0"})],
+        "thorough": [
+                  S("asan0-default", tag="asan0-c02", check="C02", only="body-fill", env={"ASAN_OPTIONS": "detect_leaks=0"}),
+                  S("asan0-default", tag="asan0-c07", check="C07", only="agg-backends-lanes", env={"ASAN_OPTIONS": "detect_leaks=0"}),
+                  S("asan0-default", tag="asan0-c14", check="C14", env={"ASAN_OPTIONS": "detect_leaks=0"}),
+                  S("asan0-default", tag="asan0-c06", check="C06", only="slice-lengths", env={"ASAN_OPTIONS": "detect_leaks=0"}),S("hook-default"), S("hook-unsafe", tag="hook-unsafe"),
                   S("asan-default", tag="asan-c02", check="C02", only="body-w", env={"ASAN_OPTIONS": "detect_leaks=0"}),
                   S("asan-default", tag="asan-c02f", check="C02", only="body-fill", env={"ASAN_OPTIONS": "detect_leaks=0"}),
                   S("asan-default", tag="asan-c07", check="C07", only="agg-backends", env={"ASAN_OPTIONS": "detect_leaks=0"}),
